@@ -13,11 +13,18 @@ pub fn run(opts: &Opts) -> Run {
         run.case(format!("spec xxh64 {}", hex(&d)), format!("ok {:016x}", xxh64(&d, 0)));
     }
     // the repository's decode corpus: frames from zstd's decodecorpus generator (rare features)
-    let corpus = gen::repo_corpus(if opts.thorough { 300_000 } else { 12_000 });
+    // (the Lean Spec is an interpreter-speed reference: the thorough tier is budgeted in BYTES so that the
+    // model run stays within minutes)
+    let corpus = gen::repo_corpus(if opts.thorough { 120_000 } else { 12_000 });
     let take = if opts.thorough { corpus.len() } else { 30 };
+    let mut budget_out: usize = if opts.thorough { 30_000_000 } else { usize::MAX };
     let start = if corpus.is_empty() { 0 } else { (opts.seed as usize * 7) % corpus.len() };
     for k in 0..take.min(corpus.len()) {
         let (name, f, o) = &corpus[(start + k) % corpus.len()];
+        if o.len() > budget_out / 2 {
+            continue;
+        }
+        budget_out -= o.len();
         // a corpus file may hold several frames; the Spec request decodes the whole concatenation
         run.case(format!("spec all {}", hex(f)), format!("ok {}", digest(o)));
         run.stat("repo_corpus_files", 1);
@@ -26,11 +33,16 @@ pub fn run(opts: &Opts) -> Run {
         }
     }
     let n = if opts.thorough { 1500 } else { 60 };
-    let max = if opts.thorough { 400_000 } else { 40_000 };
+    let max = if opts.thorough { 200_000 } else { 40_000 };
     for i in 0..n {
+        if budget_out < 50_000 {
+            run.stat("stopped_by_byte_budget_at", i as u64);
+            break;
+        }
         let kind = gen::DATA_KINDS[i % gen::DATA_KINDS.len()];
         let len = gen::pick_len(&mut rng, max);
-        let d = gen::data(&mut rng, kind, len);
+        let d = gen::data(&mut rng, kind, len.min(budget_out));
+        budget_out -= d.len().min(budget_out);
         let p = gen::zparams(&mut rng);
         let f = gen::zstd_frame(&d, &p, None);
         run.stat(&format!("kind_{}", kind), 1);
